@@ -529,6 +529,8 @@ Chdir(st, c) ==
     ELSE Ok([st EXCEPT !.cwd = StackOf(r), !.cwdn = NamesOf(r)])
 
 SetUMask(st, c) == Ok([st EXCEPT !.umask = And(c.perm, 511)])
+\* the acting identity of the view changes (the driver does this as the administrator); no supplementary groups
+SetUser(st, c) == Ok([st EXCEPT !.uid = c.uid, !.gid = c.gid, !.grps = {}])
 
 (***************************************************************************)
 (* Read-only queries.                                                      *)
@@ -590,7 +592,7 @@ Getwd(st, c) == Ret([R0 EXCEPT !.path = [abs |-> TRUE, parts |-> st.cwdn]], st)
 (***************************************************************************)
 NsOps == {"mkdir", "mkdirall", "openclose", "open", "create", "writefile", "createtemp", "mkdirtemp",
           "remove", "removeall", "rename", "link", "symlink", "truncate", "chmod", "chown", "lchown",
-          "chtimes", "chdir", "setumask", "stat", "lstat", "readlink", "readdir", "readfile",
+          "chtimes", "chdir", "setumask", "setuser", "stat", "lstat", "readlink", "readdir", "readfile",
           "evalsymlinks", "getwd"}
 
 NsApply(st, c) ==
@@ -614,6 +616,7 @@ NsApply(st, c) ==
       [] c.op = "chtimes"      -> Chtimes(st, c)
       [] c.op = "chdir"        -> Chdir(st, c)
       [] c.op = "setumask"     -> SetUMask(st, c)
+      [] c.op = "setuser"      -> SetUser(st, c)
       [] c.op = "stat"         -> Stat(st, c)
       [] c.op = "lstat"        -> Lstat(st, c)
       [] c.op = "readlink"     -> Readlink(st, c)
